@@ -216,6 +216,10 @@ def stereo_mol_graph_to_rdmol(
                 for a in mol.GetAtomWithIdx(atom_idx).GetNeighbors()
             ])
 
+            # a missing fourth neighbor (lone pair) is listed last by the
+            # import from RDKit
+            rd_nbrs = rd_nbrs + (None,) * (4 - len(rd_nbrs))
+
             if a_stereo.parity is None:
                 rd_stereo = Chem.rdchem.ChiralType.CHI_TETRAHEDRAL
             elif rd_nbrs in {tuple(perm[1:5]) for perm in a_stereo._perm_atoms()}:
